@@ -466,16 +466,17 @@ Fixpoint below (stack : list status) (index : nat) : list status :=
 Theorem render_spec : forall fuel st index acc st' rejs,
   rollback_and_render_rej fuel st index acc = ROk (st', rejs) ->
   (length (a_applied st) < fuel)%nat ->
-  exists l, rejs = acc ++ l /\ a_applied st' = below (a_applied st) index /\
+  exists l, rejs = fold_left (fun a r => add_rej (fst r) (snd r) a) l acc /\
+            a_applied st' = below (a_applied st) index /\
             Forall2 (fun s r => fst r = rej_name (st_target s) /\ write_rej_bytes s = ROk (snd r))
                     (rejected (a_applied st) index) l.
 Proof.
   induction fuel as [|f IH]; intros st index acc st' rejs H Hf; [lia|]. cbn [rollback_and_render_rej] in H.
   destruct (a_applied st) as [|s rest] eqn:Ea.
-  - injection H as <- <-. exists []. rewrite app_nil_r, Ea. cbn. auto.
+  - injection H as <- <-. exists []. rewrite Ea. cbn. auto.
   - destruct (Nat.ltb_spec index (st_index s)); [discriminate|].
     destruct (Nat.ltb_spec (st_index s) index) as [Hlt|Hge].
-    + injection H as <- <-. exists []. rewrite app_nil_r, Ea. cbn [rejected below].
+    + injection H as <- <-. exists []. rewrite Ea. cbn [rejected below fold_left].
       destruct (Nat.eqb_spec (st_index s) index); [lia|]. auto.
     + assert (Hi : st_index s = index) by lia. cbn [rejected below]. rewrite Hi, Nat.eqb_refl.
       destruct (ov_rollback (a_files st) s) as [[ov' x]|e0|]; cbn [rbind] in H; try discriminate.
@@ -483,10 +484,33 @@ Proof.
       destruct (r_failed (st_report s)).
       * destruct (write_rej_bytes s) as [data|e1|] eqn:Ew; cbn [rbind] in H; try discriminate.
         apply IH in H; [|cbn [a_applied]; lia]. destruct H as (l & -> & Hb & Hl). cbn [a_applied] in Hb, Hl.
-        exists ((rej_name (st_target s), data) :: l). rewrite <- app_assoc. split; [reflexivity|]. split; [assumption|].
+        exists ((rej_name (st_target s), data) :: l). cbn [fold_left fst snd]. split; [reflexivity|]. split; [assumption|].
         cbn [app]. constructor; [cbn; auto|assumption].
       * apply IH in H; [|cbn [a_applied]; lia]. destruct H as (l & -> & Hb & Hl). cbn [a_applied] in Hb, Hl.
         exists l. auto.
+Qed.
+
+(* the reject files have distinct names, and a name is there iff some rendered reject has it *)
+Lemma add_rej_names name data : forall acc, NoDup (map fst acc) ->
+  NoDup (map fst (add_rej name data acc)) /\
+  (forall n, In n (map fst (add_rej name data acc)) <-> n = name \/ In n (map fst acc)).
+Proof.
+  induction acc as [|[n d] rest IH]; intros Hnd; cbn [add_rej map fst].
+  - split; [constructor; [intros []|constructor]|]. intros m. cbn. intuition.
+  - destruct (bytes_eqb n name) eqn:E.
+    + apply WriterProofs.bytes_eqb_eq in E. subst n. cbn [map fst]. split; [assumption|].
+      intros m. cbn. intuition.
+    + inversion Hnd as [|? ? Hni Hnd']; subst. destruct (IH Hnd') as [H1 H2]. cbn [map fst]. split.
+      * constructor; [|assumption]. rewrite H2. intros [->|Hin]; [|contradiction].
+        assert (bytes_eqb name name = true) as Hx by (apply WriterProofs.bytes_eqb_eq; reflexivity). congruence.
+      * intros m. cbn. rewrite H2. intuition.
+Qed.
+
+Theorem rendered_names_distinct : forall l acc, NoDup (map fst acc) ->
+  NoDup (map fst (fold_left (fun a r => add_rej (fst r) (snd r) a) l acc)).
+Proof.
+  induction l as [|r l IH]; intros acc H; cbn [fold_left]; [assumption|].
+  apply IH. apply add_rej_names. assumption.
 Qed.
 
 (* no reject for any other patch, none for a file patch whose hunks all applied *)
